@@ -121,7 +121,7 @@ PROPS = {
                       "the Bindings chain abstracted as one map, PyVC/z3.",
     },
     "C08": {
-        "modules": ["contracts.c08_aggregates"],
+        "modules": ["contracts.c08_aggregates", "contracts.c08_modifiers"],
         "claim_level": "other",
         "design_ref": "6.8",
         "technique": TECH,
@@ -132,9 +132,12 @@ PROPS = {
             "numeric(e) and folds the datatype through type_promotion; AVG advances sum and counter together; for both a "
             "member that is not a numeric literal sets the error flag (the group's aggregate is then unbound) and changes "
             "nothing else (proved)",
+            "DISTINCT (evalDistinct) returns every solution of its operand, each exactly once, and nothing else; projection "
+            "(evalProject) returns exactly the rows row.project(PV) of the operand's solutions (proved; ghost set of "
+            "yielded solutions)",
         ],
         "clauses_not_decided": [
-            "ORDER BY (stable multi-key sort with DESC), LIMIT/OFFSET slicing, DISTINCT/REDUCED, projection, grouping "
+            "ORDER BY (stable multi-key sort with DESC), LIMIT/OFFSET slicing, REDUCED, FrozenBindings.project itself, grouping "
             "(evalGroup/evalAggregateJoin), HAVING, the aggregate rewriting in algebra.translateAggregates, SAMPLE and "
             "GROUP_CONCAT, empty-group results: sequence-level properties over sorted()/islice - bounded stand-in "
             "against an independent reference only",
